@@ -283,6 +283,18 @@ class _Interp(object):
             if dn == "os.path.splitext":
                 import posixpath
                 return posixpath.splitext(*args)
+            # method of an imported module-level constant (e.g. PROTOCOL_RE.match)
+            try:
+                base = self.repo.ceval(self.module, f.value)
+            except Unknown:
+                base = None
+            if isinstance(base, Regex) and f.attr in ("match", "search", "fullmatch", "sub"):
+                import re as _re
+                try:
+                    r = getattr(_re.compile(base.pattern, base.flags), f.attr)(*args)
+                except Exception as e:
+                    raise Unknown("regex op raised %s" % e)
+                return r if f.attr == "sub" else (r is not None)
             raise Unknown("call %s" % dn)
         if isinstance(f, ast.Name):
             if f.id in self.env:
